@@ -153,6 +153,16 @@ def secret_val(x):
                 ('i', b.cryptographic_algorithm.value.value) if b.cryptographic_algorithm is not None else None,
                 ('i', b.cryptographic_length.value) if b.cryptographic_length is not None else None,
                 kwd_val(b.key_wrapping_data)]
+    if isinstance(x, csecrets.SplitKey):
+        return ('l', [('i', 5)] + kb(x) + [to_val(x.split_key_parts), to_val(x.key_part_identifier), to_val(x.split_key_threshold),
+                                          to_val(x.split_key_method), to_val(x.prime_field_size)])
+    if isinstance(x, pobjects.SplitKey):
+        return ('l', [('i', 5), ('i', x.key_format_type.value), ('b', bytes(x.value)),
+                      ('i', x.cryptographic_algorithm.value) if x.cryptographic_algorithm is not None else None,
+                      ('i', x.cryptographic_length) if x.cryptographic_length is not None else None,
+                      kwd_val(x.key_wrapping_data),
+                      to_val(x.split_key_parts), to_val(x.key_part_identifier), to_val(x.split_key_threshold),
+                      to_val(x.split_key_method), to_val(x.prime_field_size)])
     if isinstance(x, (csecrets.SymmetricKey, csecrets.PublicKey, csecrets.PrivateKey)):
         code = {csecrets.SymmetricKey: 2, csecrets.PublicKey: 3, csecrets.PrivateKey: 4}[type(x)]
         return ('l', [('i', code)] + kb(x))
@@ -481,18 +491,42 @@ def gen_wrapping_data(rng, shape=None):
 def gen_wrapped_key(rng, shape=None):
     """(core key whose KeyBlock carries Key Wrapping Data, object type, shape) - core constructors only."""
     from kmip.core import misc as cmisc
-    kind = rng.randrange(3)
+    kind = rng.randrange(4)
     cls, ot, fmt, alg, length = [
         (csecrets.SymmetricKey, enums.ObjectType.SYMMETRIC_KEY, enums.KeyFormatType.RAW, CA_.AES, rng.choice([128, 256])),
         (csecrets.PublicKey, enums.ObjectType.PUBLIC_KEY, enums.KeyFormatType.X_509, CA_.RSA, 2048),
-        (csecrets.PrivateKey, enums.ObjectType.PRIVATE_KEY, enums.KeyFormatType.PKCS_8, CA_.RSA, 2048)][kind]
-    kwd, shape = gen_wrapping_data(rng, shape)
+        (csecrets.PrivateKey, enums.ObjectType.PRIVATE_KEY, enums.KeyFormatType.PKCS_8, CA_.RSA, 2048),
+        (csecrets.SplitKey, enums.ObjectType.SPLIT_KEY, enums.KeyFormatType.RAW, CA_.AES, 128)][kind]
+    if shape == 'none':
+        kwd = None
+    else:
+        kwd, shape = gen_wrapping_data(rng, shape)
     kb = cobjects.KeyBlock(
         key_format_type=cmisc.KeyFormatType(fmt), key_compression_type=None,
         key_value=cobjects.KeyValue(cobjects.KeyMaterial(gen_bytes(rng, 8, 48))),       # wrapped: length unrelated to `length`
         cryptographic_algorithm=cattrs.CryptographicAlgorithm(alg), cryptographic_length=cattrs.CryptographicLength(length),
         key_wrapping_data=kwd)
+    if cls is csecrets.SplitKey:
+        parts = rng.randint(2, 6)
+        prime = rng.choice([None, 104729, 7919])
+        return csecrets.SplitKey(split_key_parts=parts, key_part_identifier=rng.randint(1, parts),
+                                 split_key_threshold=rng.randint(1, parts),
+                                 split_key_method=(enums.SplitKeyMethod.POLYNOMIAL_SHARING_PRIME_FIELD if prime else
+                                                   rng.choice([enums.SplitKeyMethod.XOR, enums.SplitKeyMethod.POLYNOMIAL_SHARING_GF_2_8])),
+                                 prime_field_size=prime, key_block=kb), ot, shape
     return cls(kb), ot, shape
+
+
+def gen_split_key(rng):
+    """An unwrapped split key (core), pairwise different part numbers."""
+    from kmip.core import misc as cmisc
+    kb = cobjects.KeyBlock(key_format_type=cmisc.KeyFormatType(enums.KeyFormatType.RAW), key_compression_type=None,
+                           key_value=cobjects.KeyValue(cobjects.KeyMaterial(gen_bytes(rng, 16, 16))),
+                           cryptographic_algorithm=cattrs.CryptographicAlgorithm(CA_.AES),
+                           cryptographic_length=cattrs.CryptographicLength(128))
+    return csecrets.SplitKey(split_key_parts=5, key_part_identifier=rng.choice([1, 2]), split_key_threshold=rng.choice([3, 4]),
+                             split_key_method=enums.SplitKeyMethod.POLYNOMIAL_SHARING_PRIME_FIELD, prime_field_size=rng.choice([104729, 7919]),
+                             key_block=kb), enums.ObjectType.SPLIT_KEY
 
 
 def gen_secret(rng):
@@ -601,9 +635,37 @@ def a_create_key_pair(rng, v):
                 private_name=rng.choice([None, gen_text(rng, 1, 12)]), private_usage_mask=rng.choice([None, [CUM.SIGN]]))
 
 
+def gen_pie_wrapping_dict(rng):
+    """Pie key_wrapping_data dictionary with both key informations carrying different parameters (or one of them)."""
+    shape = rng.choice(['both', 'both', 'enc-only', 'mac-only'])
+    d = {'wrapping_method': {'both': enums.WrappingMethod.ENCRYPT_THEN_MAC_SIGN, 'enc-only': enums.WrappingMethod.ENCRYPT,
+                             'mac-only': enums.WrappingMethod.MAC_SIGN}[shape],
+         'encoding_option': rng.choice([None, enums.EncodingOption.NO_ENCODING])}
+    if shape != 'mac-only':
+        d['encryption_key_information'] = {'unique_identifier': 'e' + gen_uid(rng),
+                                           'cryptographic_parameters': {'block_cipher_mode': enums.BlockCipherMode.NIST_KEY_WRAP,
+                                                                        'cryptographic_algorithm': CA_.AES}}
+    if shape != 'enc-only':
+        d['mac_signature_key_information'] = {'unique_identifier': 'm' + gen_uid(rng),
+                                              'cryptographic_parameters': {'hashing_algorithm': enums.HashingAlgorithm.SHA_256,
+                                                                           'cryptographic_algorithm': CA_.HMAC_SHA256}}
+        d['mac_signature'] = gen_bytes(rng, 8, 32)
+    if rng.random() < 0.5:
+        d['iv_counter_nonce'] = gen_bytes(rng, 8, 16)
+    return d
+
+
 def gen_pie_object(rng):
-    k = rng.randrange(6)
+    k = rng.randrange(8)
     nm = gen_text(rng, 1, 16)
+    if k == 6:
+        return pobjects.SymmetricKey(CA_.AES, 128, gen_bytes(rng, 24, 40), masks=[enums.CryptographicUsageMask.ENCRYPT], name=nm,
+                                     key_wrapping_data=gen_pie_wrapping_dict(rng))
+    if k == 7:
+        return pobjects.SplitKey(cryptographic_algorithm=CA_.AES, cryptographic_length=128, key_value=gen_bytes(rng, 16, 16),
+                                 cryptographic_usage_masks=[enums.CryptographicUsageMask.EXPORT], name=nm,
+                                 split_key_parts=4, key_part_identifier=rng.choice([1, 2]), split_key_threshold=3,
+                                 split_key_method=enums.SplitKeyMethod.XOR)
     if k == 0:
         n = rng.choice([16, 24, 32])
         return pobjects.SymmetricKey(CA.AES, n * 8, gen_bytes(rng, n, n), masks=_masks(rng), name=nm)
@@ -756,7 +818,9 @@ def p_locate(rng, v):
 
 
 def p_get(rng, v, shape=None):
-    if shape is not None or rng.random() < 0.4:
+    if shape == 'split':
+        s, ot = gen_split_key(rng)
+    elif shape is not None or rng.random() < 0.4:
         s, ot, _ = gen_wrapped_key(rng, shape)
     else:
         s, ot = gen_secret(rng)
